@@ -260,6 +260,13 @@ class ModelObject:
             except KeyError:
                 pass
 
+        if type_ == "collection":
+            # items appended to a collection are named by their position; restore
+            # the counter so the loaded collection is equal to the one saved
+            positions = [int(key) for key in d["arguments"] if str(key).isdigit()]
+            if positions:
+                instance.item_number = max(positions) + 1
+
         if "assertions" in d:
             instance.assertions = [
                 from_dict(
